@@ -17,7 +17,7 @@ from ..common import Skip, brief
 ID = "C02"
 CASES = {"quick": 8000, "thorough": 80000}
 FLOOR = {"quick": 6000, "thorough": 60000}
-FLOOR_COUNTERS = {"quick": {"picks_judged": 18000, "ties_at_pick": 500}, "thorough": {"picks_judged": 300000, "ties_at_pick": 6000}}
+FLOOR_COUNTERS = {"quick": {"small_unit_fits": 400, "picks_judged": 18000, "ties_at_pick": 500}, "thorough": {"small_unit_fits": 4000, "picks_judged": 300000, "ties_at_pick": 6000}}
 RULE = (
     "case = (FPS | PCov-FPS) x (feature | sample), matrix family (gauss, lattice with exact ties, clustered, duplicated, "
     "scaled, low-rank ...), mixing in {0,.1,.5,.9,.999}, initialisation int/'random'/list/ndarray, n_to_select in [len(init), N]; "
@@ -41,6 +41,10 @@ def gen(rng, tier, index):
     n, m = int(rng.integers(2, hi)), int(rng.integers(2, hi))
     kind = gens.pick(rng, KINDS)
     X = gens.matrix(rng, n, m, kind)
+    unit = 1.0
+    if rng.random() < 0.3:  # data measured in small or large units (exact power of two: no rounding)
+        unit = float(2.0 ** int(rng.integers(-24, 14)))
+        X = X * unit
     spec = {"dir": direction, "cls": cls, "kw": {}}
     N = X.shape[sel.axis_of(spec)]
     kw = spec["kw"]
@@ -48,6 +52,8 @@ def gen(rng, tier, index):
     if cls == "PCovFPS":
         kw["mixing"] = float(gens.pick(rng, (0.0, 0.1, 0.5, 0.9, 0.999)))
         y = gens.target(rng, X, gens.pick(rng, ("linear", "noise")), 1)
+        if unit != 1.0 and rng.random() < 0.7:
+            y = y * (unit if rng.random() < 0.5 else float(2.0 ** int(rng.integers(-24, 14))))
     elif rng.random() < 0.2:
         y = gens.target(rng, X, "noise", 1)
     ninit = 1
@@ -63,7 +69,7 @@ def gen(rng, tier, index):
         kw["initialize"] = {"list": lst} if rng.random() < 0.5 else {"array": lst}
         ninit = L
     kw["n_to_select"] = int(rng.integers(ninit, N + 1))
-    return {"spec": spec, "X": X, "y": y, "kind": kind}
+    return {"spec": spec, "X": X, "y": y, "kind": kind, "unit": unit}
 
 
 def _run_one(spec, X, y, j, label):
@@ -78,7 +84,9 @@ def run(case, j):
     axis = sel.axis_of(spec)
     N = X.shape[axis]
     kw = spec["kw"]
-    j.tag(f"{spec['dir']}:{spec['cls']}", f"data:{case['kind']}", f"mixing:{kw.get('mixing')}")
+    j.tag(f"{spec['dir']}:{spec['cls']}", f"data:{case['kind']}", f"mixing:{kw.get('mixing')}", "unit:1" if case.get("unit", 1.0) == 1.0 else ("unit:small" if case["unit"] < 1 else "unit:large"))
+    if case.get("unit", 1.0) < 1e-3:
+        j.note("small_unit_fits")
     if not sel.pcov_spectrum_guard(spec, X):
         raise Skip("spectrum-near-1e-12-cut")
     est, tr = _run_one(spec, X, y, j, "")
